@@ -206,7 +206,7 @@ func (g *docGen) simpleItems(depth int) jx.Obj {
 			it["enum"] = jx.Arr{"i" + strconv.Itoa(g.sc.next())}
 		}
 	}
-	if g.cfg.RefPct > 0 && Chance(rng, g.cfg.RefPct/2) {
+	if g.cfg.RefPct > 0 && len(g.sc.Refs) > 0 && Chance(rng, g.cfg.RefPct/2) {
 		it["$ref"] = Pick(rng, g.sc.Refs)
 	}
 	return it
